@@ -23,8 +23,20 @@ def t1(sx, hr, size, prefix, rsv, oldlens, lens, long):
     return ndefflow.cutflow(sx, w, n)
 
 
+def t3(sx, nbr, nbw, nmaxb, oldlens, lens, emulated):
+    oldlen = sx.pick("oldlen", oldlens)
+    w = worlds.T3World(sx, nbr, nbw, nmaxb, oldlen, emulated=emulated)
+    n = sx.pick("n", [x for x in lens_for(w.cap, lens) if x <= w.cap])
+    return ndefflow.cutflow(sx, w, n)
+
+
 def partitions(tier):
     parts = []
+    for emulated in (False, True):
+        for nbr, nbw, nmaxb in [(1, 1, 3), (4, 3, 5), (15, 13, 14), (3, 2, 4)]:
+            parts.append(dict(name="t3%s:%d:%d:%d" % ("emu" if emulated else "", nbr, nbw, nmaxb),
+                              fn="t3", params=dict(nbr=nbr, nbw=nbw, nmaxb=nmaxb, oldlens=[0, 5, 17],
+                                                   lens=[0, 1, 16, 17, 33, "cap"], emulated=emulated)))
     for nulls in range(4):
         prefix = "N" * nulls
         parts.append(dict(name="t1:static:%s:free" % (prefix or "-"), fn="t1",
@@ -67,7 +79,8 @@ def partitions(tier):
 
 
 MUST_REACH = ["cut", "cut_before_first_write", "write_completed_without_cut",
-              "after_cut_empty", "after_cut_old_or_new", "length_field_straddles_write_unit"]
+              "after_cut_empty", "after_cut_old_or_new", "length_field_straddles_write_unit",
+              "after_cut_not_readable"]
 BOUNDS = {"quick": "T2: 48- and 496-byte data areas, NDEF TLV at offsets 0..3 mod 4, old/new lengths on both sides of 254/255, cut before every WRITE",
           "thorough": "as quick with every new length for the 48-byte area"}
 OUTSIDE = ["torn writes inside one command", "tags that change memory on a failed command"]
